@@ -992,6 +992,9 @@ func runScenario(c *vh.Ctx, seed uint64, layout, kind string, onlyClass string) 
 		}
 		what := fmt.Sprintf("ValidateHeader failed=%v VerifyBlock=%d ValidateOpCert=(%d,%d) decode=%q", v.vhFailed, v.vb, v.ocSig, v.ocPer, v.decodeErr)
 		if v.decodeErr == "" {
+			c.Res.Distribution[fmt.Sprintf("outcome:%s:%s => checks%v vb%d oc%d/%d", layout, class, v.vhFailed, v.vb, v.ocSig, v.ocPer)]++
+		}
+		if v.decodeErr == "" {
 			// the window check of ValidateHeader against the big-integer statement
 			win := inWindow(w.f.KPer, w.f.Slot, xx.spk, xx.maxev)
 			has7 := false
@@ -1248,6 +1251,17 @@ func runScenario(c *vh.Ctx, seed uint64, layout, kind string, onlyClass string) 
 		}
 	}
 
+	if sc.c >= 64 { // a certificate 64 periods older: the evolution is t+64, beyond the lifetime of a depth-6 key,
+		// while a (hypothetical) max-evolutions of 200 keeps the window open; the signature was made at t
+		oc2 := sc.opCert(ks.pk, sc.seq, sc.c-64)
+		h2, e2 := sc.build(ks, oc2, sc.pool.coldPub, sc.input(sc.slot, sc.nonce, sc.totalStake), sc.mode)
+		if e2 == nil {
+			xx := x
+			xx.pool, xx.maxev = sc.totalStake, 200
+			check("window-beyond-key-lifetime", wire{tpraos: tp, f: fieldsOf(h2), sig: h2.Signature, segs: sc.segs}, xx, false, expect{vh: true, vb: true})
+		}
+	}
+
 	// --- unit cases of the ledger helpers on this scenario's certificate
 	if onlyClass == "" {
 		f := base.f
@@ -1412,7 +1426,11 @@ func run(c *vh.Ctx) error {
 		}
 		lk := strings.SplitN(rp.Replay.Layout, "/", 2)
 		if len(lk) == 2 {
-			runScenario(c, rp.Replay.ScenarioSeed, lk[0], lk[1], "")
+			only := ""
+			if lk[1] == "slot0" {
+				only = "genuine"
+			}
+			runScenario(c, rp.Replay.ScenarioSeed, lk[0], lk[1], only)
 		}
 		return nil
 	}
@@ -1422,6 +1440,10 @@ func run(c *vh.Ctx) error {
 		for _, layout := range []string{"praos", "tpraos"} {
 			runScenario(c, c.Rng.U64(), layout, kinds[i%len(kinds)], "")
 		}
+	}
+	// the first slot of a chain (known finding: ValidateHeader has no Origin)
+	for _, layout := range []string{"praos", "tpraos"} {
+		runScenario(c, c.Rng.U64(), layout, "slot0", "genuine")
 	}
 	runWindowUnits(c)
 	return nil
